@@ -44,9 +44,34 @@ MODELS = {
     "linreg": (lambda: PLinReg(), ("predict",)),
     "treereg": (lambda: PTreeReg(max_depth=2, random_state=0), ("predict",)),
     "kmeans": (lambda: PKMeans(n_clusters=2, n_init=2, random_state=0), ("predict", "transform")),
+    "inplace-linreg": (lambda: InPlaceLinReg(), ("predict",)),
     "scaler": (lambda: PScaler(), ("transform",)),
     "pca": (lambda: PPCA(n_components=1), ("transform",)),
 }
+
+
+class InPlaceLinReg(PLinReg):
+    """A linear model that, like warm-start estimators, updates its fitted
+    arrays in place on every further fit instead of allocating new ones."""
+
+    def fit(self, X, y, sample_weight=None):
+        old_coef = getattr(self, "coef_", None)
+        old_int = getattr(self, "intercept_arr_", None)
+        PLinReg.fit(self, X, y, sample_weight)
+        new_coef = numpy.asarray(self.coef_, dtype=float)
+        if isinstance(old_coef, numpy.ndarray) and old_coef.shape == new_coef.shape and old_coef.flags.writeable:
+            old_coef[...] = new_coef
+            self.coef_ = old_coef
+        icpt = numpy.atleast_1d(numpy.asarray(self.intercept_, dtype=float))
+        if isinstance(old_int, numpy.ndarray) and old_int.flags.writeable:
+            old_int[...] = icpt
+            self.intercept_arr_ = old_int
+        else:
+            self.intercept_arr_ = icpt.copy()
+        return self
+
+    def predict(self, X):
+        return numpy.asarray(X) @ numpy.asarray(self.coef_).ravel() + float(self.intercept_arr_[0])
 
 
 def _first_column_twice(X):
@@ -109,7 +134,7 @@ class _Sim:
 
 
 def _target(name, data):
-    return data["yr"] if name in ("linreg", "treereg") else data["y"]
+    return data["yr"] if name in ("linreg", "treereg", "inplace-linreg") else data["y"]
 
 
 def _reference(sim, name, data, method):
@@ -325,7 +350,7 @@ def _run_stacking(c, sim):
 # ---------------------------------------------------------------------------
 def _run_transfer(c, sim):
     ch = c.ch
-    name = ch.choice("w", ["logreg", "treeclf", "linreg", "treereg", "scaler", "kmeans", "pca"], "inner")
+    name = ch.choice("w", ["logreg", "treeclf", "linreg", "treereg", "scaler", "kmeans", "pca", "inplace-linreg"], "inner")
     methods = MODELS[name][1]
     mchoice = ch.choice("w", [None] + list(methods), "method")
     copy_estimator = ch.choice("w", [True, False], "copy")
